@@ -92,6 +92,9 @@ def main(props, jobs):
             with open(mpath) as f:
                 have = {(r["property"], r["mutant"]) for r in json.load(f) if r["status"] in ("killed", "quiet")}
         ms = [m for m in ms if (m[0], m[1]) not in have]
+    flt = os.environ.get("VP_NAME_FILTER")
+    if flt:
+        ms = [m for m in ms if flt in m[1]]
     with ThreadPoolExecutor(max_workers=jobs) as ex:
         res = list(ex.map(lambda a: run_one(*a), ms))
     surv = 0
